@@ -270,6 +270,8 @@ func (p *TPath) envSources() (dep, src, local string) {
 			cq := strip(tpConstraintType(ii, pi))
 			if e.keyed["explicit-constraint:"+fmt.Sprintf("%s.q%d", L, pi)] {
 				fmt.Fprintf(&depB, "type %s interface{ ~int | ~string }\n", cq)
+			} else if e.keyed["comparable-constraint:"+fmt.Sprintf("%s.q%d", L, pi)] {
+				fmt.Fprintf(&depB, "type %s interface{ comparable }\n", cq)
 			} else {
 				fmt.Fprintf(&depB, "type %s interface{ M%s() }\n", cq, cq)
 			}
